@@ -51,8 +51,16 @@ pub fn svc_meta(tag: &str, item: u8) -> String {
 pub fn inst_ip(idx: usize) -> String {
     format!("10.0.{}.1", idx)
 }
+/// address of the (persistent) fixture instance of service `item`; every fixture service has one because the
+/// registry drops services that stay without instances for 30 s
+pub fn inst_ip_of(idx: usize, item: u8) -> String {
+    format!("10.0.{}.{}", idx, item)
+}
 pub fn inst_meta(tag: &str) -> String {
     format!("{{\"k\":\"sx-{}-i1\"}}", tag)
+}
+pub fn inst_meta_of(tag: &str, item: u8) -> String {
+    format!("{{\"k\":\"sx-{}-i{}\"}}", tag, item)
 }
 pub fn tool_name(tag: &str) -> String {
     format!("t1.nm-{}-t1", tag)
@@ -284,11 +292,13 @@ pub struct KnownShape {
     pub ep: &'static str,
     pub clause: Clause,
     pub root: &'static str,
+    /// the shape is known only for requests that name no namespace at all
+    pub only_unnamed: bool,
 }
 
 macro_rules! known {
     ($root:expr, $clause:ident, [$($ep:expr),* $(,)?]) => {
-        &[$(KnownShape { ep: $ep, clause: Clause::$clause, root: $root }),*]
+        &[$(KnownShape { ep: $ep, clause: Clause::$clause, root: $root, only_unnamed: false }),*]
     };
 }
 
@@ -297,7 +307,7 @@ pub const KNOWN_GROUPS: &[&[KnownShape]] = &[
     known!("F11a-v1-cs-configs-openapi-handlers", ForbiddenWriteApplied, ["v1.cs_configs.create", "v1.cs_configs.update", "v1.cs_configs.delete"]),
     known!("F11b-v1-config-history-no-check", ForbiddenSeen, ["v1.config_history.read"]),
     known!("F11c-v1-config-download-by-keys-no-check", ForbiddenSeen, ["v1.config_download.bykeys"]),
-    known!("F11d-v1-ns-service-openapi-handlers", ForbiddenSeen, ["v1.ns_service.read"]),
+    known!("F11d-v1-ns-service-openapi-handlers", ForbiddenSeen, ["v1.ns_service.read", "v1.ns_subscribers.list"]),
     known!("F11d-v1-ns-service-openapi-handlers", ForbiddenWriteApplied, ["v1.ns_service.create", "v1.ns_service.update", "v1.ns_service.delete"]),
     known!("F11e-v1-ns-instance-openapi-handlers", ForbiddenSeen, ["v1.ns_instance.read"]),
     known!("F11e-v1-ns-instance-openapi-handlers", ForbiddenWriteApplied, ["v1.ns_instance.create", "v1.ns_instance.update", "v1.ns_instance.delete"]),
@@ -310,12 +320,13 @@ pub const KNOWN_GROUPS: &[&[KnownShape]] = &[
         ["v2.mcpserver.create", "v2.mcpserver.update", "v2.mcpserver.delete", "v2.mcpserver_publish.update", "v2.mcpserver_publish_history.update"]
     ),
     known!("F11h-v2-mcp-server-import-global-unique-key", ForbiddenNsChanged, ["v2.mcpserver_import.create"]),
+    &[KnownShape { ep: "v2.subscribers.list", clause: Clause::ForbiddenSeen, root: "F11i-v2-subscriber-list-unfiltered-without-namespace", only_unnamed: true }],
 ];
 
-pub fn known_root(ep: &Ep, clause: Clause) -> Option<&'static str> {
+pub fn known_root(ep: &Ep, clause: Clause, names_a_namespace: bool) -> Option<&'static str> {
     for g in KNOWN_GROUPS {
         for k in g.iter() {
-            if k.ep == ep.id && k.clause == clause {
+            if k.ep == ep.id && k.clause == clause && !(k.only_unnamed && names_a_namespace) {
                 return Some(k.root);
             }
         }
@@ -405,6 +416,8 @@ pub const TMP_INST: (&str, u32) = ("10.8.8.8", 8081);
 /// case-local service holding TMP_INST: metadata set through the console is remembered per service for an
 /// instance key even after the instance is gone, so the service is thrown away with the case
 pub const TMP_SVC: &str = "stmp.wr";
+/// case-local empty service for the "delete service" operations (a service with instances cannot be removed)
+pub const DEL_SVC: &str = "sdel.wr";
 
 /// Request the ADMINISTRATOR sends before the case's request so that the operation has something to work on.
 /// Instance update/delete aim at a case-local EPHEMERAL instance: persistent instances are applied locally and
@@ -415,6 +428,8 @@ pub fn setup(ep: &Ep, t: &Target) -> Option<Req> {
         "v1.ns_instance.update" | "v1.ns_instance.delete" | "v2.instance.update" | "v2.instance.delete" => Some(Req::new("POST", "/v2/instance/add").json(json!({
             "serviceName": TMP_SVC, "namespaceId": NS[t.idx.min(NS.len() - 1)].0, "groupName": "DEFAULT_GROUP",
             "ip": TMP_INST.0, "port": TMP_INST.1, "ephemeral": "true", "weight": 1.0, "enabled": true, "metadata": "{\"k\":\"tmp\"}"}))),
+        "v1.ns_service.delete" | "v2.service.delete" => Some(Req::new("POST", "/v2/service/add").json(json!({
+            "serviceName": DEL_SVC, "namespaceId": NS[t.idx.min(NS.len() - 1)].0, "groupName": "DEFAULT_GROUP", "metadata": "{\"k\":\"tmp\"}", "protectThreshold": 0.1}))),
         _ => None,
     }
 }
@@ -491,7 +506,7 @@ pub fn build(ep: &Ep, t: &Target) -> Req {
             None,
             kv(&[("serviceName", &svc_name(tag, 2)), ("groupName", "DEFAULT_GROUP"), ("metadata", "{\"k\":\"updated\"}"), ("protectThreshold", "0.7")]),
         ),
-        "v1.ns_service.delete" => set_ns(r.q("serviceName", &svc_name(tag, 2)).q("groupName", "DEFAULT_GROUP"), ep, t, None, vec![]),
+        "v1.ns_service.delete" => set_ns(r.q("serviceName", DEL_SVC).q("groupName", "DEFAULT_GROUP"), ep, t, None, vec![]),
         "v1.ns_subscribers.list" | "v1.instances.list" | "v2.instance.list" => {
             set_ns(r.q("serviceName", &svc_name(tag, 1)).q("groupName", "DEFAULT_GROUP"), ep, t, None, vec![])
         }
@@ -553,7 +568,7 @@ pub fn build(ep: &Ep, t: &Target) -> Req {
             Some(json!({"serviceName": svc_name(tag, 2), "groupName": "DEFAULT_GROUP", "metadata": "{\"k\":\"updated\"}", "protectThreshold": 0.7})),
             vec![],
         ),
-        "v2.service.delete" => set_ns(r, ep, t, Some(json!({"serviceName": svc_name(tag, 2), "groupName": "DEFAULT_GROUP"})), vec![]),
+        "v2.service.delete" => set_ns(r, ep, t, Some(json!({"serviceName": DEL_SVC, "groupName": "DEFAULT_GROUP"})), vec![]),
         "v2.instance.create" => set_ns(
             r,
             ep,
